@@ -244,6 +244,8 @@ def _trees(store, outside_abs):
         "d_link_sibling": [(b"d", L, b"../wt-backup")],
         "x_link_sibling_file": [(b"x", L, b"../wt-backup/target"), (b"README", F, b"hello\n")],
         "d_dir": [(b"d/f", F, MARK), (b"d/g/h", F, MARK)],
+        "x_link_dotgit_file": [(b"x", L, b".git/config")],
+        "d_link_dotgit": [(b"d", L, b".git")],
         "dotgit_upper": [(b".GIT/hooks/pre-commit", F, MARK)],
         "dotgit_ntfs": [(b".git ./config", F, MARK), (b"git~1/config", F, MARK)],
         "dotdot": [(b"../outside/evil", F, MARK)],
@@ -286,8 +288,15 @@ def h_compose(eng, first="plain", steps=3):
         wt, outside, sibling = (os.path.join(base, n) for n in ("wt", "outside", "wt-backup"))
         for p in (wt, outside, sibling):
             os.mkdir(p)
-        with open(os.path.join(outside, "canary"), "wb") as f:
-            f.write(b"canary\n")
+        # canaries, also under every name a pool tree uses below a directory that may become a symlink to here
+        os.makedirs(os.path.join(outside, "g"))
+        for nm in ("canary", "f", "evil", "x", os.path.join("g", "h")):
+            with open(os.path.join(outside, nm), "wb") as f:
+                f.write(b"canary\n")
+        os.makedirs(os.path.join(sibling, "g"))
+        for nm in ("f", os.path.join("g", "h")):
+            with open(os.path.join(sibling, nm), "wb") as f:
+                f.write(b"canary\n")
         with open(os.path.join(sibling, "target"), "wb") as f:
             f.write(b"original\n")
         r = Repo.init(wt)
@@ -341,14 +350,14 @@ def h_compose(eng, first="plain", steps=3):
 
 def checks(tier):
     q = ("quick", "thorough")
-    pool_names = ["absolute", "d_dir", "d_link_abs", "d_link_parent", "d_link_sibling", "dotdot", "dotgit_ntfs", "dotgit_upper",
-                  "plain", "x_link_sibling_file"]
+    pool_names = ["absolute", "d_dir", "d_link_abs", "d_link_dotgit", "d_link_parent", "d_link_sibling", "dotdot", "dotgit_ntfs",
+                  "dotgit_upper", "plain", "x_link_dotgit_file", "x_link_sibling_file"]
     return _b17(tier) + [
         KCheck("C17c.composition", h_compose, parts=[{"first": f, "steps": 3} for f in pool_names],
                encoded=["dulwich.porcelain.reset/apply_patch", "dulwich.index.build_index_from_tree/update_working_tree/verify_leading_dirs/"
                         "validate_path/build_file_from_blob", "dulwich.patch.apply_patches/_ensure_within_repo/_validate_patch_target"],
-               bounds="every sequence of 3 steps: a tree from an adversarial pool of 10 (symlinks to ../outside, to an absolute path, to a "
-                      "sibling directory whose name extends the work tree's, to a file in it; directory of the same name; .GIT, "
+               bounds="every sequence of 3 steps: a tree from an adversarial pool of 12 (symlinks to ../outside, to an absolute path, to a "
+                      "sibling directory whose name extends the work tree's, to a file in it, to .git and to .git/config; directory of the same name; .GIT, "
                       "'.git .', git~1, '..' and absolute entry names) applied by reset --hard, reset --mixed or as a patch rewriting "
                       "the tree's files; real directories with canaries outside the work tree",
                outside="sequences longer than 3; clone/stash entry points; real NTFS/HFS+ file systems", time_budget=2400, tiers=q),
